@@ -29,6 +29,8 @@ def run(name):
         caught, rules = [], []
         for p in props:
             rc, o = sh(f'{BIN} -repo {src} -property {p} -verif {vd}')
+            if 'replay=load-failed' in o:
+                return name, None, [], 'the patched tree does not type-check (was /repo modified while copying?)'
             if rc == 1 and 'VIOLATION' in o:
                 caught.append(p)
                 rules += sorted(set(re.findall(r'\[([A-Z0-9-]+)\]', o)))
